@@ -219,8 +219,37 @@ func c17ref(rng *sx.Rng) string {
 	return "#" + strings.Join(parts, "/")
 }
 
+// c17mergedPluginSets: plugins written as one mapping that merges an anchored plugin set and re-specifies one of
+// the merged plugins: the step's plugin list (canonical sources, in order - what is signed) is that of the same step
+// written out by hand
+func c17mergedPluginSets() {
+	withMerge := "base: &b\n  alpha#v1: {x: 1}\n  org/beta#v2: ~\nsteps:\n- command: c\n  plugins:\n    first#v0: ~\n    <<: *b\n    zeta#v1: ~\n    alpha#v1: {x: 2}\n"
+	byHand := "steps:\n- command: c\n  plugins:\n  - first#v0: ~\n  - org/beta#v2: ~\n  - zeta#v1: ~\n  - alpha#v1: {x: 2}\n"
+	list := func(text string) (string, error) {
+		p, err := pipeline.Parse(strings.NewReader(text))
+		if err != nil && !warning.Is(err) {
+			return "", err
+		}
+		cs, ok := p.Steps[0].(*pipeline.CommandStep)
+		if !ok {
+			return "", fmt.Errorf("not a command step: %T", p.Steps[0])
+		}
+		b, err := json.Marshal(cs.Plugins)
+		return string(b), err
+	}
+	a, ea := list(withMerge)
+	b, eb := list(byHand)
+	c := sx.L(sx.A("merged-plugin-set"), sx.A(withMerge))
+	if ea != nil || eb != nil || a != b {
+		oracleFail("C17", "merged-plugin-set", c, fmt.Sprintf("plugins through the merge: %s (%v); written out: %s (%v)", a, ea, b, eb))
+		return
+	}
+	stat("C17", "merged-plugin-set")
+}
+
 func init() {
 	props["C17"] = func(rng *sx.Rng, thorough bool) {
+		c17mergedPluginSets()
 		// exhaustive small scope over the reduced alphabet
 		alpha := []byte{'a', '.', '/', '-', '#', ':', '@', '\\'}
 		maxLen := 5
